@@ -114,6 +114,10 @@ impl Stats
         self.inc(if inv.is_build { "invocations.build" } else { "invocations.clean" });
         self.add("sim.clock_ticks", inv.res.clock_ticks);
         self.add("sim.steps", inv.res.steps as u64);
+        // margin to the step bound (150 000 + 400 per file): how many invocations took a twentieth, a tenth, a fifth of it
+        if inv.res.steps >= 7_500 { self.inc("sim.invocations_with_7500_or_more_steps"); }
+        if inv.res.steps >= 15_000 { self.inc("sim.invocations_with_15000_or_more_steps"); }
+        if inv.res.steps >= 30_000 { self.inc("sim.invocations_with_30000_or_more_steps"); }
         self.add("sim.decisions", inv.res.decisions as u64);
         self.add("sim.events", inv.res.events.len() as u64);
         self.add("sim.threads", inv.res.threads as u64);
